@@ -156,13 +156,13 @@ theorem new_probe_starts_at_jitter (r : Registry) (a : RR) (n : BList) (t : Nat)
 
 /-- Every probe a registration creates - for a name that was not being probed - starts, and
     first sends, at `now + jitter`; a probe that was already running keeps its times, or - it
-    began earlier and a record of the service joined it - starts over at `now + jitter` (repair
-    of D33: the joining record gets its three probe queries). -/
+    had sent a query already and a record of the service joined it - starts over at
+    `now + jitter` (repair of D33: the joining record gets its three probe queries). -/
 theorem registration_probe_times (s : Service) (i : MyIntf) (r : Registry) (v4 : Bool) (now j : Nat) (n : BList) :
     (alookup n r.probing = none → ∀ p, alookup n (prepareAnnounceReg s i r v4 now j).probing = some p →
       p.start = now + j ∧ p.next = now + j) ∧
     (∀ q, alookup n r.probing = some q → ∃ p, alookup n (prepareAnnounceReg s i r v4 now j).probing = some p ∧
-      ((p.start = q.start ∧ p.next = q.next) ∨ (p.start = now + j ∧ p.next = now + j ∧ q.start < now + j))) :=
+      ((p.start = q.start ∧ p.next = q.next) ∨ (p.start = now + j ∧ p.next = now + j ∧ q.start < q.next))) :=
   prepareAnnounceReg_times s i r v4 now j n
 
 /-- The end of a probe (`handle_expired_probes`, no rename pending): the probe is removed, each
@@ -428,14 +428,15 @@ example : (Probe.new 1000).trace [1800, 2050, 2300, 2550] =
 
 /-- REPAIRED (D33, shared probe; was `joining_record_inherits_age`): a record that comes to an
     existing probe of its name - a second service on the same host name with another address -
-    and is not matched there joins the probe, and when the probe began before `t` the probe's
-    schedule starts over at `t`: the record gets three probe queries of its own
-    (`probe_timeline`).  A record that is matched, or a probe that is not older, keeps the times. -/
+    and is not matched there joins the probe, and when the probe has sent a query already
+    (`next_send` has moved on from `start_time`) the probe's schedule starts over at `t`: the record
+    gets three probe queries of its own (`three_probes_after_restart`).  A record that is matched,
+    or a probe that has sent nothing yet, keeps the times. -/
 theorem joining_record_restarts_probe (r : Registry) (a : RR) (n : BList) (t : Nat) (q : Probe)
     (h : alookup a.getName r.probing = some q) :
     ∃ p, alookup a.getName (r.probeInsert a n t).probing = some p ∧ p.records.any (a.matchesRR ·) = true ∧
-      (q.records.any (a.matchesRR ·) = false → q.start < t → p.start = t ∧ p.next = t) ∧
-      ((q.records.any (a.matchesRR ·) = true ∨ t ≤ q.start) → p.start = q.start ∧ p.next = q.next) := by
+      (q.records.any (a.matchesRR ·) = false → q.start < q.next → p.start = t ∧ p.next = t) ∧
+      ((q.records.any (a.matchesRR ·) = true ∨ q.next ≤ q.start) → p.start = q.start ∧ p.next = q.next) := by
   obtain ⟨p, hp, _, hold⟩ := probeInsert_times r a n t
   refine ⟨p, hp, ?_, ?_, ?_⟩
   · simp only [Registry.probeInsert, alookup_aset_self, h, Option.getD_some, Option.some.injEq] at hp
